@@ -2,15 +2,15 @@ import json
 claimed = {
  'C18': ('exploration', 'Each sampled -j 1 configuration is executed in 4 fresh interpreters with different PYTHONHASHSEED and in each twice under different scheduler seeds, personalities, virtual pid bases, command latencies, look-ahead capacities and line-level pre-emption (single worker, feeder thread and main still interleave); oracle: identical chain of adopted inputs, byte-identical output, identical status.', '4 (C18)', 'differential deterministic simulation across hash seeds, schedules and timings'),
  'C14': ('exploration', 'Trace monitor over whole simulated runs of the real CLI under swarm-random ordered option sequences and inputs with/without declarations of each theory: the mutator classes actually consulted are compared with a reference model of option processing and theory detection. The property has no schedule or fault in it (said plainly in DESIGN.md); the simulator contributes the whole-run trace across feeder thread and workers.', '4 (C14)', 'whole-run trace monitor under the simulator + reference model of option processing'),
- 'C13': ('exploration', 'Seeded search over whole runs steered towards sharing-producing simplifications (histories of accepted steps of length >= 2); invariant checked at every construction of a new round and around every reduplicate call: node identities pairwise distinct, tokens unchanged, unique nodes keep their identity.', '4 (C13)', 'whole-system deterministic simulation + state invariant at round boundaries'),
+ 'C13': ('exploration', 'Seeded search over whole runs steered towards sharing-producing simplifications (histories of accepted steps of length >= 2); invariant checked at every construction of a new round and around every reduplicate call: node identities pairwise distinct, tokens unchanged, unique nodes keep their identity. The shared node-id counter is a seam (simulated shared value and lock, pre-emption at drawn accesses).', '4 (C13), 11, 14', 'whole-system deterministic simulation + state invariant at round boundaries'),
  'C10': ('exploration', 'Seeded search with command faults (hang, CPU spin, allocation blow-up, signal death, golden run exceeding the limit, match string absent) placed on pseudo-random candidates, on a simulated clock with simulated kernel limits; oracle: verdicts under the reference rule, kill-before-continue, no process left, no stall (deadlock detection), limits as documented, bounded simulated run time, status 1 before any candidate when the golden output lacks the match string.', '4 (C10)', 'deterministic simulation on a virtual clock with command-fault injection + deadlock detection'),
  'C04': ('exploration', 'Seeded search with fault injection over whole runs on well-formed, damaged and unbalanced inputs through both launchers: usage errors, injected mutator exceptions (buggify), OSError on candidate files, SIGINT and MemoryError at main yield points; oracle: nothing but SystemExit leaves the launcher, exit status 0 iff completion, one-line diagnostics, and with a failing mutator M the result still is a fixed point of all other enabled mutators.', '4 (C04)', 'deterministic simulation with fault injection (mutator exceptions, I/O errors, interrupts, usage errors) + exit-status and isolation oracles'),
- 'C03': ('exploration', 'Seeded search over whole runs against adversarial (hash-sparse, non-monotone) command models with erasing mutators often disabled and inputs biased to the risky shapes; oracle: no adopted input is revisited, bounded number of adopted steps, and a deterministic per-step instruction budget (jump counter) that turns a non-terminating mutator step into a reproducible failure. Bounded liveness, by sampling.', '4 (C03)', 'whole-system deterministic simulation with adversarial peers + history oracle (no revisit) + deterministic hang budget'),
+ 'C03': ('exploration', 'Seeded search over whole runs against adversarial (hash-sparse, non-monotone) command models with erasing mutators often disabled and inputs biased to the risky shapes; oracle: no adopted input is revisited, bounded number of adopted steps, and a deterministic per-step instruction budget (jump counter) (jumps and calls) that turns a non-terminating or exponential mutator step into a reproducible failure; neighbourhood adversaries, complexity-stress inputs (deep / wide terms), a corpus of would-be cycles and a growth corpus with a regression bound. Bounded liveness, by sampling; unbounded growth in general is not decided (DESIGN 11).', '4 (C03), 11', 'whole-system deterministic simulation with adversarial peers + history oracle (no revisit) + deterministic hang budget'),
  'C02': ('exploration', 'Seeded search over whole hierarchical/hybrid runs (schedules, -j, mutator subsets, non-monotone command models); after each run every proposal of every enabled mutator on the final in-memory input is re-enumerated with ddSMT\'s own mutators and judged by the command model under the reference rule.', '4 (C02)', 'whole-system deterministic simulation + exhaustive re-enumeration oracle on the final state'),
  'C09': ('exploration', 'Every individual check of sampled whole runs (scripted exit/stdout/stderr outcomes of command and cross-check command from a colliding alphabet x all comparison options x --unchecked) is compared with an independent statement of the documented rule; argv of every invocation is checked. Sampling of the option x outcome classes with a measured coverage table.', '4 (C09)', 'deterministic simulation with scripted command outcomes + reference-rule oracle per check'),
  'C01': ('exploration', 'Seeded search over whole simulated runs across input x command model x strategy x -j x output mode x comparison options x cross-check x completion order; the final output file is re-judged by the command model under an independent statement of the acceptance rule and matched against the set of candidate files actually read and accepted.', '4 (C01)', 'whole-system deterministic simulation + command-side log oracle'),
  'C05': ('exploration', 'Seeded search over interleavings of the real strategy loops (main thread, pool task-feeder thread, workers, command latencies, queue look-ahead, abort-flag visibility, line-level pre-emption); the chain oracle is evaluated over the recorded history of every run. Sampling, not enumeration.', '4 (C05)', 'whole-system deterministic simulation + history oracle (chain of adopted inputs)'),
- 'C06': ('fault_enumeration', 'Per sampled run every crash/observation point inside every rewrite of the output file is enumerated: reader/SIGKILL observation at each boundary and one SIGINT (sometimes MemoryError) replay per boundary, plus a sample of points outside rewrites; additionally main must not go back to waiting for running checks between adopting a result and having written it. Runs themselves are sampled; in the quick tier a wall-clock cap per case bounds how many points of a long run are replayed.', '3.1, 4 (C06)', 'deterministic simulation with crash-point enumeration (reader, SIGKILL, SIGINT, MemoryError)'),
+ 'C06': ('fault_enumeration', 'Per sampled run every crash/observation point inside every rewrite of the output file is enumerated: reader/SIGKILL observation at each boundary and one SIGINT (sometimes MemoryError) replay per boundary, plus a sample of points outside rewrites, disk faults (torn write / failing close with ENOSPC or EIO, optionally a disk that stays full) at sampled low-level operations, and SIGKILL followed by a second run on the files left behind; additionally main must not go back to waiting for running checks between adopting a result and having written it. Runs themselves are sampled; in the quick tier a wall-clock cap per case bounds how many points of a long run are replayed.', '3.1, 4 (C06)', 'deterministic simulation with crash-point enumeration (reader, SIGKILL, SIGINT, MemoryError, disk faults, crash-restart)'),
 }
 na = {
  'C07': 'pure function of a node list and two option bits: no schedule, clock, fault or peer to simulate (DESIGN 6)',
